@@ -8,6 +8,11 @@ Families of inputs (all expectations computed or validated by TLC):
                      n on the 2^7 .. 2^16 boundaries (macro actions; own processes)
   thread groups      thread-confined observer groups sharing only the counter, each thread validated by ObserversTrace (plain + TSan)
   concurrent bursts  StampsTrace on value-sorted logs (plain + TSan); thorough: bursts crossing 2^31 / 2^32
+  relayed histories  ObserversRelay.tla: every step of a (still sequential) observer history is performed by one of 3 long-lived
+                     threads (`by`, enumerated by TLC), hand-over in between; start states: threads that drew 0 / 1 / 63 / 64 / 65 / 300
+                     stamps before anything was created; replay + recorded traces (ObserversRelayTrace)
+  stamp relays       StampsRelayTrace: thread A draws, hands over, thread B draws ... => values increase along the chain
+                     (Stamps.tla: HappensBeforeOrdered; negative control: per-thread blocks of values)
 Source mutations the check was tried against: selftest/mutations/C19/*.diff (each '# expect: VIOLATION' verified with try_patch.sh).
 """
 import json, os, random, time
@@ -34,10 +39,18 @@ LEVEL_TEXT = ("TLC checks on bounded instances (2 observables x 3 observers, eve
               "non-LIFO mass destruction; n = 1, 2, 127..129, 255..257, 511..513, 1023..1025, 4095..4097, 65535..65537) as macro actions of a "
               "set-level contract whose invariants and per-observer declarative reading TLC checks; thread-confined observer groups on 2-8 "
               "threads sharing only the stamp counter, each thread's recorded history validated against the sequential contract (also under "
-              "TSan); thorough: bursts whose values cross 2^31 / 2^32 while 8 threads draw them")
+              "TSan); thorough: bursts whose values cross 2^31 / 2^32 while 8 threads draw them; relayed histories: TLC enumerates, on the "
+              "2 x 3 instance, which of 3 long-lived threads performs each step of a history (the contract's answers do not depend on it: "
+              "checked against the thread-free declarative reading over all assignments) and the start state (threads that drew 0, 1, 63, 64, "
+              "65, 300 stamps before anything was created, threads drawing unrelated stamps in between); the histories are performed step by "
+              "step on worker threads with a hand-over in between and compared with TLC's values, recorded random relayed executions are "
+              "validated by TLC; TLC proves for the fetch-and-add model that a draw complete before another begins carries the smaller "
+              "value and refutes it for per-thread blocks of values (negative control, required); synchronised cross-thread relays of real "
+              "stamp draws (2-4 threads, also under TSan) are validated against that law at the hand-over points only")
 LEVEL_NOTE = ("bounded: exhaustive parts use 2 observables x 3 observers, 3 stamp cells, 3-4 threads x 2-3 counter operations; the real "
               "concurrent executions are sampled (free-running threads), not schedule-controlled; observers are checked single-threaded (the "
-              "statement's schedules quantifier is about time stamps); copying an Observer / Observable object is outside the statement and not "
+              "statement's schedules quantifier is about time stamps; their histories are also performed with every step on a different "
+              "thread, strictly one step at a time); copying an Observer / Observable object is outside the statement and not "
               "exercised; what a moved-from TimeStamp holds is left open; stamp values beyond 2^61 cannot be logged; trusted: TLC, the drivers' "
               "own books of occupied slots (cross-checked by the trace specifications' guards), value sorting of the burst logs, "
               "g++/libstdc++, ASan/UBSan/TSan")
@@ -162,7 +175,7 @@ def rand_stamp_actions(rnd, n, nc=TRACE_NC):
 # ---------------------------------------------------------------------------
 # recorded sequential executions -> TLC  (adtcheck.record_and_validate plus statistics and a corruption guard)
 # ---------------------------------------------------------------------------
-def record_validate(chk, exe, module, acts, tag, sig_prefix, meta, isolate=4):
+def record_validate(chk, exe, module, acts, tag, sig_prefix, meta, isolate=4, keep=()):
     res, rc, stderr, wall = adt.run_driver(exe, acts, tag + "-rec", isolate=isolate, meta=meta, env=FAST_SAN)
     execs = []
     for i, al in enumerate(acts):
@@ -176,12 +189,12 @@ def record_validate(chk, exe, module, acts, tag, sig_prefix, meta, isolate=4):
             if k > 0:    # the events that led there: perform the prefix once more so that TLC sees them
                 res2, _, _, _ = adt.run_driver(exe, [al[:k]], tag + "-rec-prefix", isolate=1, meta=meta, env=FAST_SAN)
                 for st, o in zip(al[:k], (res2.get(0) or {}).get("obs", [])):
-                    ev.append({"a": st["a"], "arg": st.get("arg", []), "obs": o})
+                    ev.append(dict({"a": st["a"], "arg": st.get("arg", []), "obs": o}, **{x: st[x] for x in keep if x in st}))
             ev.append({"a": kind, "arg": al[k].get("arg") if 0 <= k < len(al) else None,
                        "during": al[k]["a"] if 0 <= k < len(al) else None, "obs": r[kind]})
         else:
             for st, o in zip(al, r["obs"]):
-                ev.append({"a": st["a"], "arg": st.get("arg", []), "obs": o})
+                ev.append(dict({"a": st["a"], "arg": st.get("arg", []), "obs": o}, **{x: st[x] for x in keep if x in st}))
         execs.append(ev)
     acc, rej, stats = trace.validate(os.path.join(SPEC, module + ".tla"), os.path.join(SPEC, module + ".cfg"), execs, tag)
     chk.cov["traces_validated_against_impl"] += acc + len(rej)
@@ -765,6 +778,359 @@ def far_collect(chk, hs, futures, tag="c19-far"):
                 % (i["class"], i["values_drawn_by_advance"], i["steps"], i["polls_compared_behind_gap"], i["wall_s"]))
 
 
+# ---------------------------------------------------------------------------
+# relayed histories: a sequential history whose steps are performed by different long-lived threads (spec/utility/ObserversRelay.tla)
+# ---------------------------------------------------------------------------
+API_RELAY = "Observer/relay"
+RELAY_NT = 3
+RELAY_PRE = [0, 1, 63, 64, 65, 300]
+ALL_RELAY = ALL_OBS + ["Warm", "Draw"]
+
+
+def relay_graph_job():
+    """TLC's complete state graph of ObserversRelayGen (runs beside the rest of the check).  The contract's own ghost (olast) is a
+    ghost here as well: abstract state = the contract state + `warmed`."""
+    dot = os.path.join(WORK, "graphs", "c19-relay-%d.dot" % os.getpid())
+    os.makedirs(os.path.dirname(dot), exist_ok=True)
+    r = tla.run_tlc(os.path.join(SPEC, "ObserversRelay.tla"), os.path.join(SPEC, "ObserversRelayGen.cfg"), workers=4, timeout=1500,
+                    dump_dot=dot, tag="c19-relay-gen")
+    if not r.ok:
+        raise InfraError("generation model ObserversRelay failed: violated=%s error=%s\n%s" % (r.violated, r.error, r.out[-2000:]))
+    g = tla.parse_dot(dot)
+    os.remove(dot)
+    return adt.collapse(g, ghost=("last", "olast")), r
+
+
+def relay_histories(chk, fut, quick, seed):
+    """Paths of TLC's graph: all paths up to a budgeted length, one per transition, seeded random walks.  Every history starts with
+    a Warm edge (the only edges leaving the initial state, all into the same state): the cover / the walks take them in turn, so
+    that every start state of the specification is used often - still paths of TLC's graph."""
+    ag, r = fut.result()
+    chk.add_model("ObserversRelay/ObserversRelayGen.cfg", r, "generation instance (thread assignment `by` enumerated by TLC): %d abstract states, "
+                  "%d abstract transitions" % (len(ag.states), ag.nedges))
+    if len(ag.init) != 1:
+        raise InfraError("ObserversRelay: %d initial states" % len(ag.init))
+    warm = [e for e in ag.edges[ag.init[0]]]
+    if not warm or any(st["a"] != "Warm" for st, _ in warm) or len({d for _, d in warm}) != 1:
+        raise InfraError("ObserversRelay: the initial state is not left by Warm edges into one state")
+    budget = 300 if quick else 6000     # (short exhaustive paths cannot reach a notified poll: the cover and the walks carry the weight)
+    K = 1
+    while K < 7 and adt.count_paths(ag, K + 1) <= budget:
+        K += 1
+    hs = adt.all_paths(ag, K, budget * 2) or []
+    cover = adt.edge_cover(ag)
+    rw = adt.random_walks(ag, 800 if quick else 6000, 40, seed)
+    rnd = random.Random(seed + 5)
+    ncover = len(cover)
+    if quick:                                   # quick tier: the Warm edges, then a seeded sample of the transition cover
+        rest = cover[len(warm):]
+        rnd.shuffle(rest)
+        cover = cover[:len(warm)] + rest[:2400]
+    order = list(range(len(warm)))
+    rnd.shuffle(order)
+    n = 0
+    for h in cover[len(warm):] + rw:           # (the first len(warm) cover histories are the Warm edges themselves)
+        if h and h[0]["a"] == "Warm":
+            h[0] = warm[order[n % len(warm)]][0]
+            n += 1
+    info = {"abstract_states": len(ag.states), "abstract_transitions": ag.nedges, "all_histories_len": K if hs else 0, "all_histories": len(hs),
+            "transition_cover": ncover, "transition_cover_replayed": len(cover), "random_walks": len(rw), "walk_len": 40,
+            "start_states": len(warm), "threads": RELAY_NT}
+    return hs, cover, rw, info
+
+
+def relay_replay(chk, exe, hs, tag, meta):
+    """adtcheck.replay plus the self-check that every step was performed by the worker thread the history names."""
+    res, rc, stderr, wall = adt.run_driver(exe, hs, tag, isolate=400, meta=meta, env=FAST_SAN, timeout=1800)
+    if rc not in (0,) and not res:
+        raise InfraError("driver %s produced nothing (rc=%s): %s" % (exe, rc, stderr[-2000:]))
+    mms = adt.compare(hs, res, rc, stderr)
+    for mm in mms:
+        if mm["kind"] == "missing":
+            if "Sanitizer" in stderr or "runtime error" in stderr:
+                mm.update(kind="crash", field="crash", action=hs[mm["case"]][-1]["a"] if hs[mm["case"]] else None)
+            else:
+                raise InfraError("driver %s stopped without result for case %d (rc=%s): %s" % (exe, mm["case"], rc, stderr[-1500:]))
+        h = hs[mm["case"]]
+        k = mm["step"]
+        by = h[k].get("by") if 0 <= k < len(h) else None
+        what = "%s: step %d %s(%s) performed by thread %s: %s expected %s observed %s; threads of the steps before: %s" % (
+            API_RELAY, k, mm.get("action"), json.dumps(mm.get("arg")), by, mm["field"], json.dumps(mm.get("expected"))[:300],
+            json.dumps(mm.get("observed"))[:300], json.dumps([[st["a"], st.get("by")] for st in h[:max(k, 0) + 1]])[:500])
+        rep = {"kind": "history", "property": chk.pid, "tag": tag, "sig_prefix": API_RELAY, "meta": meta, "history": h,
+               "mismatch": {kk: v for kk, v in mm.items() if kk != "stderr"}, "info": {"relay": True}}
+        if mm.get("stderr"):
+            rep["stderr_tail"] = mm["stderr"][-2500:]
+        chk.violation(sig_of(API_RELAY, mm), what, rep)
+    chk.cov["evaluations"] += len(hs)
+    stats = {"steps_on_named_thread": 0, "polls_true_cross": 0, "polls_false_cross": 0}
+    bad = {m["case"] for m in mms}
+    for i, h in enumerate(hs):
+        o = (res.get(i) or {}).get("obs")
+        if o is None or i in bad:
+            continue
+        born, noti = {}, {}
+        for st, ob in zip(h, o):
+            if st["a"] != "Warm" and not ob.get("skipped"):
+                if ob.get("on") != st["by"]:
+                    raise InfraError("relay driver: step %s named thread %s but ran on %s" % (st["a"], st["by"], ob.get("on")))
+                stats["steps_on_named_thread"] += 1
+            a = st["a"]
+            if a == "CreateObserver":
+                born[st["arg"]["b"]] = (st["by"], st["arg"]["o"])
+            elif a == "Notify":
+                noti[st["arg"]["o"]] = st["by"]
+            elif a == "Poll" and st["arg"]["b"] in born:
+                cb, o_ = born[st["arg"]["b"]]
+                if st["exp"]["ret"] is True and noti.get(o_) not in (None, st["by"]) and ob.get("ret") is True:
+                    stats["polls_true_cross"] += 1
+                if st["exp"]["ret"] is False and cb != st["by"] and ob.get("ret") is False:
+                    stats["polls_false_cross"] += 1
+    return len(mms), wall, stats
+
+
+def relay_spec_to_code(chk, exe, fut, quick):
+    hs, cover, rw, info = relay_histories(chk, fut, quick, chk.seed)
+    allh = hs + cover + rw
+    chk.count_actions(allh)
+    chk.require_actions(ALL_RELAY)
+    # vacuity guards on the generated inputs: thread assignment, start states
+    bys = {st["by"] for h in allh for st in h if st["a"] not in ("Warm",)}
+    if bys != set(range(1, RELAY_NT + 1)):
+        raise InfraError("vacuity guard: relayed histories use threads %s" % sorted(bys))
+    pre_at = {(t, c) for h in allh for st in h if st["a"] == "Warm" for t, c in enumerate(st["arg"]["pre"])}
+    lack = [(t, c) for t in range(RELAY_NT) for c in RELAY_PRE if (t, c) not in pre_at]
+    if lack:
+        raise InfraError("vacuity guard: start states never generated (thread index, stamps drawn before): %s" % lack)
+    wcls = {st["cls"] for h in allh for st in h if st["a"] == "Warm"}
+    if wcls != {"nobody-drew", "some-drew", "all-drew"}:
+        raise InfraError("vacuity guard: start-state classes generated: %s" % sorted(wcls))
+    multi = sum(1 for h in allh if len({st["by"] for st in h if st["a"] not in ("Warm", "Draw")}) >= 2)
+    if multi < len(allh) // 3:
+        raise InfraError("vacuity guard: only %d of %d relayed histories use two or more threads" % (multi, len(allh)))
+    info["histories_on_2plus_threads"] = multi
+    stages = [sorted(cover, key=len)[:600], sorted(cover, key=len)[600:], hs, rw]
+    tot = {"steps_on_named_thread": 0, "polls_true_cross": 0, "polls_false_cross": 0}
+    nbad = 0
+    for variant in ["plain"]:
+        meta = {"variant": variant, "nw": 3, "nt": RELAY_NT}
+        for i, st in enumerate(stages):
+            if not st:
+                continue
+            n, wall, stats = relay_replay(chk, exe, st, "c19-relay-%s-s%d" % (variant, i), meta)
+            for k in tot:
+                tot[k] += stats[k]
+            chk.log("Observer relay %s stage %d: %d histories replayed (%d mismatching) in %.1fs" % (variant, i, len(st), n, wall))
+            nbad += n
+            if n:
+                left = sum(len(x) for x in stages[i + 1:])
+                if left:
+                    chk.note("%s %s: %d of %d histories of stage %d mismatch; %d longer histories not replayed" % (API_RELAY, json.dumps(meta), n, len(st), i, left))
+                break
+        chk.cov["distinct_nontrivial"] += adtcheck._nontrivial_distinct(
+            [[dict(st, arg={"arg": st.get("arg"), "by": st.get("by")}) for st in h] for h in allh], MUT_OBS)
+    info.update(tot)
+    chk.cov["relayed_observer_histories"] = info
+    if not nbad:
+        # vacuity guard on the execution: the polls the gap class is about were performed, on the named threads, and compared
+        if tot["polls_true_cross"] < 200 or tot["polls_false_cross"] < 200 or tot["steps_on_named_thread"] < 10000:
+            raise InfraError("vacuity guard: relayed histories hardly exercised cross-thread polls: %s" % tot)
+    chk.add_sample({"kind": "history", "object": "Observable/Observer relayed over %d threads" % RELAY_NT, "steps": cover[len(cover) // 2]})
+
+
+def rand_relay_actions(rnd, n):
+    """Inputs only: a random observer history, every step given a random thread; start state and unrelated draws sprinkled in."""
+    pre = [rnd.choice(RELAY_PRE) for _ in range(RELAY_NT)]
+    if rnd.random() < 0.3:
+        pre[rnd.randrange(RELAY_NT)] = 0
+    acts = [{"a": "Warm", "arg": {"pre": pre}, "by": 0}]
+    sticky = rnd.choice([0.0, 0.5, 0.9])       # how often the next step stays on the same thread
+    by = rnd.randint(1, RELAY_NT)
+    for st in rand_observer_actions(rnd, n):
+        if rnd.random() >= sticky:
+            by = rnd.randint(1, RELAY_NT)
+        if rnd.random() < 0.04:
+            acts.append({"a": "Draw", "arg": {"n": rnd.choice([1, 2, 63, 64, 65])}, "by": rnd.randint(1, RELAY_NT)})
+        acts.append(dict(st, by=by))
+    return acts
+
+
+def relay_code_to_spec(chk, exe, rnd, quick):
+    nexec = 16 if quick else 150
+    acts = [rand_relay_actions(rnd, 250) for _ in range(nexec)]
+    meta = {"variant": "plain", "nw": TRACE_NW, "nt": RELAY_NT}
+    acc, rej, execs = record_validate(chk, exe, "ObserversRelayTrace", acts, "c19-relay", API_RELAY, meta, keep=("by",))
+    chk.cov["evaluations"] += nexec
+    if not rej:
+        st = performed_stats(execs)
+        chk.cov["recorded_relayed_Observers"] = st
+        lacking = [a for a in ALL_RELAY if st["performed"].get(a, 0) < 3]
+        if lacking or st["refused"] < 1:
+            raise InfraError("vacuity guard: recorded relayed executions performed too few of %s (refused: %d)" % (lacking, st["refused"]))
+        # corruption guard: a flipped poll result / a step by a thread that does not exist must be rejected at that event
+        cand = [(i, k) for i, ev in enumerate(execs) for k, e in enumerate(ev) if e["a"] == "Poll" and isinstance(e["obs"].get("ret"), bool)]
+        if not cand:
+            raise InfraError("corruption guard: no recorded relayed poll")
+        for what in ("ret", "by"):
+            i, k = rnd.choice(cand)
+            ev = json.loads(json.dumps(execs[i]))
+            if what == "ret":
+                ev[k]["obs"]["ret"] = not ev[k]["obs"]["ret"]
+            else:
+                ev[k]["by"] = RELAY_NT + 1
+            a2, r2, _ = trace.validate(os.path.join(SPEC, "ObserversRelayTrace.tla"), os.path.join(SPEC, "ObserversRelayTrace.cfg"), [ev], "c19-relay-corrupt")
+            if not r2 or r2[0]["line"] != k:
+                raise InfraError("corruption guard: ObserversRelayTrace did not reject a corrupted '%s' at event %d (rejections: %s)" % (what, k, r2))
+            chk.cov.setdefault("corruption_guard", []).append({"spec": "ObserversRelayTrace", "corrupted": "Poll %s at event %d" % (what, k), "rejected_at": r2[0]["line"]})
+
+
+# ---------------------------------------------------------------------------
+# stamp relays: draws in a synchronised cross-thread chain (spec/utility/StampsRelayTrace.tla)
+# ---------------------------------------------------------------------------
+API_TSR = "TimeStamp/relay"
+
+
+def relay_plans(rnd, quick):
+    """Inputs only.  First segments = the start state (threads that drew 0 / 1 / 63 / 64 / 65 / 300 stamps before); then a chain of
+    short segments on changing threads."""
+    plans = []
+    for i in range(40 if quick else 400):
+        T = rnd.choice([2, 2, 3, 4])
+        pre = [RELAY_PRE[(i + 2 * t) % len(RELAY_PRE)] if i < 12 else rnd.choice(RELAY_PRE) for t in range(T)]
+        if i % 4 == 3:
+            pre[rnd.randrange(T)] = 0
+        segs = [[t + 1, pre[t]] for t in range(T)]
+        last = 0
+        for _ in range(rnd.choice([4, 12, 40])):
+            t = rnd.choice([x for x in range(1, T + 1) if x != last] if rnd.random() < 0.8 else list(range(1, T + 1)))
+            segs.append([t, rnd.choice([1, 1, 1, 2, 3, 63, 64, 65])])
+            last = t
+        plans.append({"threads": T, "segs": segs})
+    return plans
+
+
+def run_relays(chk, exe, plans, tag, san):
+    d = os.path.join(WORK, "run", tag)
+    os.makedirs(d, exist_ok=True)
+    hists, paths = [], []
+    for i, c in enumerate(plans):
+        p = os.path.join(d, "relay-%d-%d.ndjson" % (os.getpid(), i))
+        if os.path.exists(p):
+            os.remove(p)
+        paths.append(p)
+        hists.append([{"a": "Relay", "arg": dict(c, out=p)}])
+    res, rc, stderr, wall = adt.run_driver(exe, hists, tag, isolate=1, timeout=1200, extra_args=["--timeout-ms", "120000"])
+    execs = []
+    for i, c in enumerate(plans):
+        r = res.get(i)
+        if r is None:
+            raise InfraError("driver %s gave no result for relay %d (rc=%s): %s" % (exe, i, rc, stderr[-1500:]))
+        if "crash" in r:
+            status = r["crash"].get("status")
+            if san == "thread" and (status == 95 or "ThreadSanitizer" in stderr):
+                execs.append([{"e": "race", "status": status}])
+            else:
+                execs.append([{"e": "crash", "status": status, "sig": r["crash"].get("sig")}])
+        elif "timeout" in r:
+            execs.append([{"e": "timeout"}])
+        else:
+            o = r["obs"][0]
+            if "unexpected_exception" in o or "error" in o or not os.path.exists(paths[i]):
+                execs.append([{"e": "malformed", "what": str(o.get("unexpected_exception") or o.get("error") or "no event file")}])
+            else:
+                with open(paths[i]) as f:
+                    evs = [json.loads(x) for x in f if x.strip()]
+                execs.append([{"e": "Start", "threads": c["threads"], "segs": c["segs"]}] + evs + [{"e": "End", "draws": o["draws"]}])
+        try:
+            os.remove(paths[i])
+        except OSError:
+            pass
+    return execs, stderr, wall
+
+
+def validate_relays(chk, execs, plans, tag, san, stderr=""):
+    acc, rej, stats = trace.validate(os.path.join(SPEC, "StampsRelayTrace.tla"), os.path.join(SPEC, "StampsRelayTrace.cfg"), execs, tag,
+                                     reset_key="e", timeout=1200)
+    chk.cov["traces_validated_against_impl"] += acc + len(rej)
+    chk.cov.setdefault("trace_events_validated", 0)
+    chk.cov["trace_events_validated"] += stats["events"]
+    chk.log("trace validation %s: %d relays accepted, %d rejected, %d events, %.1fs" % (tag, acc, len(rej), stats["events"], stats["wall"]))
+    for rj in rej:
+        ev = rj["event"]
+        e = ev.get("e")
+        field = e if e in ("race", "crash", "timeout", "malformed") else \
+            "value-not-above-a-draw-that-happened-before" if e == "Draw" else "trace-rejected@" + str(e)
+        full = execs[rj["exec"]]
+        mm = {"action": "Relay", "cls": "san=%s" % (san or "none"), "field": field}
+        what = "%s: relay over %d threads rejected by StampsRelayTrace at event %d (hand-over order): %s" % (
+            API_TSR, plans[rj["exec"]]["threads"], rj["line"], json.dumps(full[max(1, rj["line"] - 2):rj["line"] + 1])[:600])
+        rep = {"kind": "relay", "property": chk.pid, "tag": tag, "san": san, "plan": plans[rj["exec"]], "events": full[:rj["line"] + 1],
+               "rejected_at": rj["line"]}
+        if e in ("race", "crash"):
+            rep["stderr_tail"] = stderr[-3000:]
+        chk.violation(sig_of(API_TSR, mm), what, rep)
+    return acc, rej
+
+
+def relay_corruption_guard(chk, execs, rnd):
+    good = [e for e in execs if len(e) > 8 and e[-1].get("e") == "End"]
+    if not good:
+        raise InfraError("corruption guard: no complete relay")
+    done = []
+    for what in ("inversion", "duplicate", "wrong-thread", "lost"):
+        ev = json.loads(json.dumps(rnd.choice(good)))
+        draws = [k for k, x in enumerate(ev) if x.get("e") == "Draw"]
+        if what == "inversion":            # a draw after a hand-over carries a smaller value than the draw before it
+            cc = [k for k in draws[1:] if ev[k]["t"] != ev[k - 1]["t"]]
+            if not cc:
+                continue
+            k = rnd.choice(cc)
+            ev[k]["v"], ev[k - 1]["v"] = ev[k - 1]["v"], ev[k]["v"]      # rejected at the second of the two
+        elif what == "duplicate":
+            k = rnd.choice(draws[1:])
+            ev[k]["v"] = list(ev[k - 1]["v"])
+        elif what == "wrong-thread":
+            k = rnd.choice(draws)
+            ev[k]["t"] = ev[k]["t"] % ev[0]["threads"] + 1
+        else:
+            k0 = rnd.choice(draws[:-1])
+            del ev[k0]
+            k = k0
+        acc, rej, _ = trace.validate(os.path.join(SPEC, "StampsRelayTrace.tla"), os.path.join(SPEC, "StampsRelayTrace.cfg"), [ev], "c19-relay-corrupt", reset_key="e")
+        if not rej or rej[0]["line"] != k:
+            raise InfraError("corruption guard: StampsRelayTrace did not reject corruption '%s' at event %d (rejections: %s)" % (what, k, rej))
+        done.append({"spec": "StampsRelayTrace", "corrupted": what, "rejected_at": rej[0]["line"]})
+    if len(done) < 3:
+        raise InfraError("corruption guard: relays too small to corrupt")
+    chk.cov.setdefault("corruption_guard", []).extend(done)
+    chk.log("corruption guard: StampsRelayTrace rejects an inversion across a hand-over, a duplicate, a draw by the wrong thread, a lost draw")
+
+
+def stamp_relays(chk, exe, exe_tsan, rnd, quick):
+    plans = relay_plans(rnd, quick)
+    execs, stderr, wall = run_relays(chk, exe, plans, "c19-stamp-relay", "")
+    acc, rej = validate_relays(chk, execs, plans, "c19-stamp-relay", "", stderr)
+    tp = plans[:12]
+    execs_t, stderr_t, wall_t = run_relays(chk, exe_tsan, tp, "c19-stamp-relay-tsan", "thread")
+    validate_relays(chk, execs_t, tp, "c19-stamp-relay-tsan", "thread", stderr_t)
+    chk.cov["evaluations"] += len(plans) + len(tp)
+    hand, starts, idle = 0, set(), 0
+    for c, e in zip(plans, execs):
+        d = [x for x in e if x.get("e") == "Draw"]
+        hand += sum(1 for a, b in zip(d, d[1:]) if a["t"] != b["t"])
+        starts |= {c["segs"][t][1] for t in range(c["threads"])}
+        idle += sum(1 for t in range(c["threads"]) if c["segs"][t][1] == 0)
+    info = {"plain": len(plans), "tsan": len(tp), "draws": sum(len(e) - 2 for e in execs if len(e) >= 2), "hand_overs_between_different_threads": hand,
+            "stamps_drawn_before_by_a_thread": sorted(starts), "threads_starting_without_a_stamp": idle, "wall_s": round(wall + wall_t, 1)}
+    chk.cov["stamp_relays"] = info
+    if not rej:
+        if hand < 200 or set(RELAY_PRE) - starts or idle < 5:
+            raise InfraError("vacuity guard: the stamp relays did not exercise hand-overs / start states: %s" % info)
+        relay_corruption_guard(chk, execs, random.Random(chk.seed + 14))
+    chk.add_sample({"kind": "relay", "plan": plans[0], "events_in_hand_over_order": execs[0][1:7]})
+    chk.log("stamp relays: %d plans, %d draws, %d hand-overs between different threads in %.1fs" % (len(plans), info["draws"], hand, wall + wall_t))
+
+
 def run(chk, replay=None):
     quick = chk.tier == "quick"
     rnd = random.Random(chk.seed)
@@ -778,6 +1144,9 @@ def run(chk, replay=None):
         "far stamps: one scripted history per distance class (quick: 2^31+1 only); distances beyond 2^32+1 and a wrap of the 64-bit counter are not reached",
         "wide histories: three scripted shapes per count (quick: 9 counts up to 65536, thorough: 21 counts up to 65537); counts beyond 2^16+1 are not explored",
         "thread groups: every thread uses only its own observables / observers (observers are not thread-safe and the statement does not say they are)",
+        "relayed histories: 3 worker threads, one step at a time with a mutex + condition-variable hand-over (no concurrent access to any object); "
+        "22 start states (threads that drew 0 / 1 / 63 / 64 / 65 / 300 stamps before); thread assignments enumerated by TLC on the 2 x 3 instance",
+        "stamp relays: 2-4 threads, hand-over by an atomic turn counter; happens-before is asserted only along that chain",
     ]
     if replay:
         return do_replay(chk, replay)
@@ -789,8 +1158,9 @@ def run(chk, replay=None):
     far_pool = ThreadPoolExecutor(max_workers=len(far_hs))
     far_futures = far_start(far_pool, exe_far, far_hs)
     exe_wide = build.build("drv_observers_wide", san="address,undefined", driver_dir="observers")
-    wide_pool = ThreadPoolExecutor(max_workers=2)
+    wide_pool = ThreadPoolExecutor(max_workers=3)
     wide_future = wide_pool.submit(wide_job, exe_wide, quick)
+    relay_future = wide_pool.submit(relay_graph_job)
     cross_future = None
     if not quick:
         # bursts whose values cross 2^31 / 2^32 while 8 threads draw them: the counter is first moved to 20000 below the boundary
@@ -807,7 +1177,14 @@ def run(chk, replay=None):
          "Observer.h mechanism (stamps, list, pointers) refines the contract; no dangling pointer, no use after free"),
         ("neg", "ObserversMech", "ObserversMech_noUnregister.cfg", "~Observer() does not deregister", {"NoDangling", "NoUseAfterFree"}),
         ("neg", "ObserversMech", "ObserversMech_noOrphan.cfg", "~Observable() does not orphan its observers", {"NoDangling", "NoUseAfterFree"}),
-        ("mc", "Stamps", "Stamps.cfg", "fetch-and-add: unique, per-thread increasing, copies carry; all interleavings of 3 threads x 3 operations"),
+        ("mc", "Stamps", "Stamps.cfg", "fetch-and-add: unique, per-thread increasing, copies carry, a draw complete before another begins carries the "
+                                       "smaller value (any threads); all interleavings of 3 threads x 3 operations"),
+        ("mc", "ObserversRelayMC", "ObserversRelayMC.cfg" if quick else "ObserversRelayMC_thorough.cfg",
+         "every assignment of the steps of all histories up to K to 2 threads (start states, unrelated draws): answers = thread-free declarative reading"),
+        ("neg", "ObserversRelayMC", "ObserversRelayMC_neg.cfg", "claim: no checked history has creator, notifier and poller on different threads",
+         {"NeverCrossThread"}),
+        ("mc", "Stamps", "StampsBlock_oldlaws.cfg", "per-thread blocks of values keep Unique / IncreasingPerThread (why those laws alone do not carry the observers)"),
+        ("neg", "Stamps", "StampsBlock_hb.cfg", "values handed out from per-thread blocks", {"HappensBeforeOrdered"}),
     ]
     if not quick:
         jobs += [("mc", "Stamps", "Stamps_thorough.cfg", "fetch-and-add, 4 threads x 2 operations"),
@@ -893,6 +1270,11 @@ def run(chk, replay=None):
     if not rej and chk.cov["thread_confined_observer_groups"]["polls_true"] < 50:
         raise InfraError("vacuity guard: the thread groups hardly saw a notification: %s" % chk.cov["thread_confined_observer_groups"])
 
+    # 3c. relayed histories: every step performed by one of RELAY_NT long-lived threads, hand-over in between -------
+    exe_r = build.build("drv_observers_relay", san="address,undefined", driver_dir="observers")
+    relay_spec_to_code(chk, exe_r, relay_future, quick)
+    relay_code_to_spec(chk, exe_r, rnd, quick)
+
     # 4. TimeStamp as a value type: spec -> code, code -> spec --------------------------------------------
     exe_c = build.build("drv_stamp_cells", san="address,undefined", driver_dir="stamps")
     hs2, info2, ag2 = adtcheck.gen_histories(chk, SPEC, "StampCells", "StampCellsGen.cfg", budget, 7,
@@ -939,6 +1321,7 @@ def run(chk, replay=None):
     chk.cov["concurrent_bursts"]["tsan"] = len(tcfgs)
     chk.cov["concurrent_bursts"]["events"] += sum(len(e) for e in execs_t)
     chk.cov["evaluations"] += len(cfgs) + len(tcfgs)
+    stamp_relays(chk, exe_b, exe_t, rnd, quick)
     if cross_future is not None:
         cexecs, cstderr, cwall = cross_future.result()
         chk.log("bursts crossing 2^31 / 2^32: %d executed in %.1fs" % (len(cexecs), cwall))
@@ -976,6 +1359,20 @@ def do_replay(chk, path):
         pool = ThreadPoolExecutor(max_workers=1)
         far_collect(chk, [rep["history"]], far_start(pool, exe, [rep["history"]]), tag="replay")
         pool.shutdown()
+    elif kind == "history" and rep.get("sig_prefix") == API_RELAY:
+        exe = build.build("drv_observers_relay", san="address,undefined", driver_dir="observers")
+        relay_replay(chk, exe, [rep["history"]], "replay", rep.get("meta"))
+    elif kind == "trace" and rep.get("sig_prefix") == API_RELAY:
+        exe = build.build("drv_observers_relay", san="address,undefined", driver_dir="observers")
+        record_validate(chk, exe, rep["module"], [rep["actions"]], "replay", API_RELAY, rep.get("meta"), isolate=1, keep=("by",))
+    elif kind == "relay":
+        san = rep.get("san", "")
+        # the recorded chain is the evidence: it is validated again; then the plan is run again
+        validate_relays(chk, [rep["events"] + [{"e": "End", "draws": -1}]], [rep["plan"]], "replay-recorded", san)
+        exe = build.build("drv_stamps", backend="Debug", san="thread", driver_dir="stamps") if san == "thread" \
+            else build.build("drv_stamps", driver_dir="stamps")
+        execs, stderr, wall = run_relays(chk, exe, [rep["plan"]], "replay-relay", san)
+        validate_relays(chk, execs, [rep["plan"]], "replay-relay", san, stderr)
     elif kind == "history" and rep.get("sig_prefix") == API_WIDE:
         exe = build.build("drv_observers_wide", san="address,undefined", driver_dir="observers")
         adtcheck.replay(chk, exe, [rep["history"]], "replay", API_WIDE, isolate=0, timeout=3000)
